@@ -28,4 +28,16 @@ META = {
         "note": "Trusted: Coq kernel, harness, strace and the syscall abstraction. Process death only (no power loss, no fsync claimed); POSIX rename/O_EXCL/partial-write semantics assumed; CBOR validity is a hypothesis checked per generated record. The crash states between system calls are produced by replaying the model's operations with real system calls (and, for three points, by really killing the process), not by exhaustive kill injection at every byte.",
         "technique": "Coq proof (induction over the write chunks / prefixes; alist lemmas) + syscall-trace correspondence + crash-state materialisation evaluated by vm_compute, with negative controls for the old operation list",
     },
+    "C16": {
+        "text": "Translation theorem over ALL token-level sources (induction over the lines with the batcher state as invariant): if every line follows the documented form of instructions.texi (batch lines as the final block) and the source lies outside four decidable classes, then whatever the assembler model emits is exactly the concatenation of the encodings of the instructions written (numbers read in decimal, batch block expanded to MOUT/MNEXT/MPREV..HALT..INCMP), and by composition with the C14 round trip decodes to exactly those instructions; batch-expansion theorem for every combination of DOWN/UP/NEXT/PREVIOUS lines. The full statement is refuted on the code as it is: four theorems exhibit a documented-form source in each excluded class whose emitted bytes decode to something else (00->0, 1a->1 / a, 256-byte MOVE symbol dropped, 010->8). Tied to asm/asm.go and asm/menu.go by a differential run of the real asm.Parse on generated sources, evaluated with vm_compute; the C16 monitor runs on the bytes the real assembler wrote.",
+        "design_ref": "DESIGN.md section 6 C16",
+        "note": "Partial: proved under the guards lossless_selectors, short_syms, decimal_sizes (complements of K-C16-numnorm, -digitprefix, -longsym, -octal). Trusted: Coq kernel, harness generators/printer, the hand-written model of the participle lexer/grammar and of ParseUint base 0 (modelled, not verified). Sources the assembler rejects (error or panic) are counted, not violations. Flag-name preprocessing not modelled.",
+        "technique": "Coq proof (induction over source lines, batcher invariant, composition with the codec round trip) + refutation witnesses by vm_compute + model/implementation correspondence by vm_compute",
+    },
+    "C04": {
+        "text": "Refinement theorem for one navigation step: for every target, state and cache (>= 1 frame), a call of applyTarget that returns nil moves (ExecPath, SizeIdx) exactly as the move table transcribed from doc/texinfo/navigation.texi says (named node: push, index 0; _: pop, index 0; ^: cut to the entry node, index 0; .: stay; >: index+1 mod 2^16; <: index-1), returns the node now current, touches nothing else in the state, and moves the cache as many levels as the stack (levels = depth+1 is an invariant); every failing call (malformed target, < at index 0, moves without an entry node, depth limit) leaves state and cache unchanged; the only reachable panic is a descent into the current node (iff). History form by induction over arbitrary target lists. One documented row is violated by the code and recorded: '_' at the entry node returns nil and leaves an empty stack. The three input patterns are characterised and pinned to the regenerated regex sources. Tied to vm/input.go, vm/runner.go:Rewind and state/state.go by stepwise comparison on generated target sequences, incl. across MaxLevel and the uint16 wrap.",
+        "design_ref": "DESIGN.md section 6 C04",
+        "note": "Trusted: Coq kernel, harness, the hand transcription of the table (nav_spec) and of the three regexes (checked exhaustively on short strings against Go's regexp). Where the text is silent the spec follows DESIGN.md: '^' at the entry node and '^'/'.' on the empty stack are the identity. Hypothesis: cache has >= 1 frame.",
+        "technique": "Coq proof (case analysis over the target grammar, induction over Rewind's loop and over target lists) + stepwise model/implementation correspondence and table monitor by vm_compute",
+    },
 }
